@@ -3,6 +3,7 @@
 The brief contains only the property's text and a scratch worktree path."""
 import json, sys
 pid = sys.argv[1]; wt = sys.argv[2]
+avoid = sys.argv[3] if len(sys.argv) > 3 else ''
 for l in open('/verif/properties.jsonl'):
     p = json.loads(l)
     if p['id'] == pid:
@@ -37,4 +38,4 @@ Deliverables, all inside {wt}/out/ (create it):
   3. notes.md    - 5-15 lines: what the change is, why it violates the property, exactly what is needed for it to manifest, and the pytest summary lines you observed before and after.
 Verify all of it yourself: run demo.py and the full test suite with the change applied, then go to the clean tree with `git apply -R out/patch.diff` (NEVER use `git stash`: the stash is shared with other worktrees of this repository that other people are using at the same time) and confirm demo.py passes, then re-apply with `git apply out/patch.diff` and leave the worktree WITH the change applied (so that `git diff` equals patch.diff). Do not commit.
 
-Reply with a 5-line summary (files changed, how it manifests, test results).""")
+Reply with a 5-line summary (files changed, how it manifests, test results).""" + (('\n\nNote: an earlier, separate exercise already produced this kind of change: "%s". Choose a DIFFERENT mechanism / code site / clause of the property.' % avoid) if avoid else ''))
